@@ -165,6 +165,7 @@ type PortDecl struct {
 	Name   string
 	Ext    string // out-port: "|.ext" modifier
 	Stream bool   // out-port: {os:}
+	Dir    bool   // out-port: the output is a directory
 	Join   string // in-port: join separator name (space|comma|colon|dashI); "" = none
 	Mods   string // extra modifiers for in-ports, e.g. "|%.txt"
 }
@@ -182,7 +183,11 @@ func BuildCmd(proc string, ins, outs []PortDecl, params []string, tags map[strin
 		if o.Ext != "" {
 			ext = "|." + o.Ext
 		}
-		toks = append(toks, fmt.Sprintf("%s=%s:{%s:%s%s}", ph, o.Name, ph, o.Name, ext))
+		key := ph
+		if o.Dir {
+			key = "od"
+		}
+		toks = append(toks, fmt.Sprintf("%s=%s:{%s:%s%s}", key, o.Name, ph, o.Name, ext))
 	}
 	var joined *PortDecl
 	for i := range ins {
